@@ -1,9 +1,10 @@
 """gamma for spec/Masking.tla: abstract segments / trees -> concrete Python values."""
+import collections
 import collections.abc
 
 CLASS = {
     'letter': 'xqzXQZjvw', 'digit': '0123456789', 'nonascii': 'éüß中Ж', 'punct': '!#%&,-/:;@_~>',
-    'equals': '=', 'lt': '<', 'space': ' ', 'tab': '\t',
+    'equals': '=', 'lt': '<', 'space': ' ', 'tab': '\t', 'newline': '\n',
     'dot': '.', 'star': '*', 'plus': '+', 'qmark': '?', 'caret': '^', 'dollar': '$', 'lparen': '(',
     'rparen': ')', 'lbrack': '[', 'rbrack': ']', 'lbrace': '{', 'rbrace': '}', 'pipe': '|',
     'backslash': '\\',
@@ -78,6 +79,10 @@ def render(msg, secrets, mask, rnd_spell):
 
 
 # -- trees ---------------------------------------------------------------------
+class Bag(dict):
+    """a dict subclass of the caller's own"""
+
+
 class ROMapping(collections.abc.Mapping):
     """A Mapping that is not a dict."""
 
@@ -178,4 +183,7 @@ def build_pair(tree, masked, rnd, mask):
         din[k] = a
         dout[k] = b
     arg = ROMapping(din) if tree['kind'] == 'mapping' else din
+    if tree['kind'] == 'dict' and rnd.random() < 0.15:
+        # a dict all the same, of a subclass: what comes back is a plain dict at every level
+        arg = collections.OrderedDict(din) if rnd.random() < 0.5 else Bag(din)
     return arg, dout
